@@ -1,3 +1,4 @@
+import PhysisModel.Proofs.PbdParse
 import PhysisModel.Proofs.Cmp
 import PhysisModel.Proofs.Layer
 import PhysisModel.Proofs.Tera
@@ -185,5 +186,61 @@ example : Spec.Layer.encode ⟨0x3142474c, 0x3150474c, 261, [0x50,0x6c,0x61,0x6e
     [0x4c,0x47,0x42,0x31, 0x2d,0,0,0, 1,0,0,0, 0x4c,0x47,0x50,0x31, 0x18,0,0,0, 5,1,0,0, 0x10,0,0,0,
      0x10,0,0,0, 0,0,0,0, 0x50,0x6c,0x61,0x6e,0x4c,0x69,0x76,0x65, 0] := by decide
 example : Spec.Layer.WF ⟨0x3142474c, 0x3150474c, 261, [0x50,0x6c,0x61,0x6e,0x4c,0x69,0x76,0x65]⟩ := by decide
+
+end Physis.C16
+
+/-! ## pre-bone deformer, byte level (`src/pbd.rs`, `strings_parser`) — completes `c16_pbd_chain_partial`
+
+`Spec.Pbd.encode` lays a deformer file out as: count, item table (body id, link index, offset of the item's
+out-of-line block), link table, then one block per item (bone count, u16 name offsets relative to the block,
+a u16 of padding when the count is odd, the 4x3 matrices, the NUL-terminated names).  Items and links are
+arbitrary lists (any order, any cross references — the link index / deformer index / parent fields are
+data to the parser), 0 or more bones per item, any NUL-free names; `WFLayout` only asks for what the
+fields can hold (equal table sizes, 12 floats per matrix, block < 2^16 for the u16 name offsets,
+file < 2^31 for the i32 block offsets). -/
+namespace Physis.C16
+open Physis
+
+/-- **`PreBoneDeformer::from_existing` returns exactly the stored records**: on the encoding of every file
+the layout can hold, the reader (item table, `seek_before`/`restore_position` into the out-of-line blocks,
+`strings_parser` over the name offsets, odd-count padding, matrices, link table) yields the header holding
+the items — body id, link index, names and matrices in order — and the links of `f`. -/
+theorem c16_pbd_parse_encode (f : Spec.Pbd.File) (h : Spec.Pbd.WFLayout f) :
+    Pbd.fromExisting (Spec.Pbd.encode f) = .ok (Pbd.toModel f) :=
+  Pbd.fromExisting_encode f h
+
+/-- **the named 4x3 matrices along the parent chain**: parsing the encoded file and asking for
+`get_deform_matrices(a, b)` returns the bones (name + matrix) of the first item with body id `a`, then those
+of its ancestors, nearest first, up to but excluding the item with body id `b` (through the root when `b` is
+not an ancestor) — for every well-formed forest, any item / link order, duplicate ids, 0..K bones per item,
+whenever the start node has a sibling link (the no-sibling case is left unconstrained by the property). -/
+theorem c16_pbd_chain (f : Spec.Pbd.File) (a b : UInt16) (hwf : Spec.Pbd.WFTree f) (hlay : Spec.Pbd.WFLayout f)
+    (start : Spec.Pbd.Item) (hfind : Spec.Pbd.findItem f a = some start) (hab : a ≠ b)
+    (hs : Spec.Pbd.HasSibling f start) :
+    ∃ bones, Spec.Pbd.deformBones f start b = some bones ∧
+      Pbd.query (Spec.Pbd.encode f) a b = .ok (bones.map Pbd.convBone) := by
+  obtain ⟨bones, hspec, hmodel⟩ := c16_pbd_chain_partial f a b hwf start hfind hab hs
+  exact ⟨bones, hspec, by rw [Pbd.query_encode f hlay, hmodel]⟩
+
+/-- the three-level forest above is a well-formed file; its 3 → 1 query through the bytes -/
+example : Spec.Pbd.WFLayout exampleForest := by decide +kernel
+example : ∃ bones, Spec.Pbd.deformBones exampleForest ⟨3, 0, [⟨[0x63], [3,0,0,0,0,3,0,0,0,0,3,0]⟩]⟩ 1 = some bones ∧
+    Pbd.query (Spec.Pbd.encode exampleForest) 3 1 = .ok (bones.map Pbd.convBone) :=
+  c16_pbd_chain exampleForest 3 1 (by decide) (by decide +kernel) _ (by decide) (by decide) (by decide)
+
+/-- items with 0, 1 (odd: padding present), 2 (even: no padding) bones, an empty name, item order different
+from link order: child (id 7, two bones) → root (id 5, one bone); id 9 is a second root without bones -/
+def exampleMixed : Spec.Pbd.File :=
+  ⟨[⟨9, 0, []⟩, ⟨7, 2, [⟨[0x6a, 0x5f, 0x6b], [1,2,3,4,5,6,7,8,9,10,11,12]⟩, ⟨[], [0,0,0,0,0,0,0,0,0,0,0,0x3F800000]⟩]⟩,
+    ⟨5, 1, [⟨[0x6e], [0x3F800000,0,0,0,0,0x3F800000,0,0,0,0,0x3F800000,0]⟩]⟩],
+   [⟨0xFFFF, 0xFFFF, 1, 0⟩, ⟨0xFFFF, 2, 0xFFFF, 2⟩, ⟨1, 0xFFFF, 0, 1⟩]⟩
+example : Spec.Pbd.WFTree exampleMixed ∧ Spec.Pbd.WFLayout exampleMixed := by decide +kernel
+/-- the bytes of the one-bone block (count 1, name offset 0x38 = 56, padding, 12 floats, "n\0") -/
+example : Spec.Pbd.encodeBlock [⟨[0x6e], [0x3F800000,0,0,0,0,0x3F800000,0,0,0,0,0x3F800000,0]⟩] =
+    [1,0,0,0, 0x38,0, 0,0, 0,0,0x80,0x3F, 0,0,0,0, 0,0,0,0, 0,0,0,0, 0,0,0,0, 0,0,0x80,0x3F, 0,0,0,0, 0,0,0,0,
+     0,0,0,0, 0,0,0,0, 0,0,0x80,0x3F, 0,0,0,0, 0x6e,0] := by decide
+example : Pbd.query (Spec.Pbd.encode exampleMixed) 7 9 =
+    .ok [⟨[0x6a, 0x5f, 0x6b], [1,2,3,4,5,6,7,8,9,10,11,12]⟩, ⟨[], [0,0,0,0,0,0,0,0,0,0,0,0x3F800000]⟩,
+         ⟨[0x6e], [0x3F800000,0,0,0,0,0x3F800000,0,0,0,0,0x3F800000,0]⟩] := by decide +kernel
 
 end Physis.C16
